@@ -419,3 +419,34 @@ PROBES_C12 = [
     ("method-value-kept-across-evaluations", _kept_method, "1,2,3|caught 5"),
 ]
 groups.register_probes("C12", PROBES_C12)
+
+
+# =======================================================================================================================
+# K1: which VM runs the callbacks of a built-in method value (a method value read in one evaluation may be used in a later one)
+# =======================================================================================================================
+from pyvc.api import *      # noqa: E402
+
+
+def c_running_vm(vm: Obj("VM"), ctx: Obj("Context"), cur: Obj("VM"), frames: ValList, has_ctx: Bool, has_cur: Bool):
+    """VM._running_vm: a VM that has finished (its call stack is empty) hands over to the VM the context is running NOW;
+    a VM that is still running, or whose context runs nothing, answers for itself -- so callbacks of a method value kept
+    from an earlier evaluation run in the current evaluation (its deadline, its handlers), never in a dead one"""
+    vm._context = ctx if has_ctx else None
+    vm.call_stack = frames
+    ctx._current_vm = cur if has_cur else None
+    snap = heap_snapshot()
+    o = outcome(REAL, vm)
+    check("never-raises", o[0] == "ret")
+    if len(frames) == 0 and has_ctx and has_cur:
+        check("finished-vm-hands-over-to-the-current-one", same_ref(o[1], cur))
+    else:
+        check("otherwise-itself", same_ref(o[1], vm))
+    check("reads-only", heap_unchanged(snap))
+
+
+def _native_running_vm():
+    from microjs.vm import VM
+    return VM._running_vm
+
+
+register(c_running_vm, id="C12.VM._running_vm", prop="C12", target=method("microjs.vm", "VM._running_vm"), native=_native_running_vm, prim_args=False)
